@@ -39,6 +39,10 @@ ValidAddr(a) == a \notin BadAddrs
 NonEmpty(a)  == a # "bad:empty"
 Gov == "gov"
 
+(* "up:<name>" is the same bech32 address written in upper case: a different STRING (it hashes differently) that names the same ACCOUNT *)
+UpperAlias == [x \in {"up:u1", "up:u2", "up:u3", "up:u4"} |-> CASE x = "up:u1" -> "u1" [] x = "up:u2" -> "u2" [] x = "up:u3" -> "u3" [] x = "up:u4" -> "u4"]
+Acct(a) == IF a \in DOMAIN UpperAlias THEN UpperAlias[a] ELSE a
+
 (* the escrow account of bridge b and the community pool are ledger accounts *)
 Esc(b) == "esc" \o K(b)
 Pool   == "pool"
@@ -209,7 +213,7 @@ FinalizeTokenWithdrawal_G(s, e) ==
     escrowCovers |-> ValidDenom(e.w.denom) => Bal(s, Esc(e.b), e.w.denom) >= e.w.amt ]
 FinalizeTokenWithdrawal_E(s, e) ==
   [s EXCEPT !.claimed = [s.claimed EXCEPT ![K(e.b)] = Put(@, LeafId(e.b, e.w), TRUE)],
-            !.bal     = Move(s.bal, Esc(e.b), e.w.to, e.w.denom, e.w.amt)]
+            !.bal     = Move(s.bal, Esc(e.b), Acct(e.w.to), e.w.denom, e.w.amt)]
 FinalizeTokenWithdrawal_R(s, e) ==
   [ev |-> [bridge |-> e.b, out |-> e.out, seq |-> e.w.seq, from |-> e.w.from, to |-> e.w.to,
            l1denom |-> e.w.denom, l2denom |-> L2DenomOf(e.b, e.w.denom), amt |-> e.w.amt]]
